@@ -283,6 +283,8 @@ class LinCheck:
             return cs[0]
         if kind == z3.Z3_OP_UNINTERPRETED:
             base = name.rsplit("_", 1)[0]
+            if all(c in ("const", "zero") for c in cs):
+                return "const"  # a function of excitation-independent arguments does not depend on the excitation
             if base in self.lin_stubs:
                 pos = self.lin_stubs[base]
                 ok = all((c in ("lin", "zero")) if i in pos else (c in ("const", "zero")) for i, c in enumerate(cs))
